@@ -855,6 +855,12 @@ def main():
         tmp = out_path + ".tmp%d" % os.getpid()
         open(tmp, "w").write(txt)
         os.replace(tmp, out_path)
+        # a stale object file of the previous text must never satisfy a `Require` of the obligations
+        for ext in (".vo", ".vos", ".vok", ".glob"):
+            try:
+                os.remove(out_path[:-2] + ext)
+            except OSError:
+                pass
         print("regenerated", out_path)
     return 0
 
